@@ -78,6 +78,12 @@ func checkAudio(a AF) error {
 		uint8(f.Trait) != a.Trait || f.AudioLevel != a.Level || !bytes.Equal(f.Raw, a.Raw) {
 		return fmt.Errorf("decoded frame {fmt %d rate %d size %d type %d trait %d level %d raw %d bytes} differs from the frame encoded %+v", f.SoundFormat, f.SoundRate, f.SoundSize, f.SoundType, f.Trait, f.AudioLevel, len(f.Raw), a)
 	}
+	// the tag body belongs to the application: once it has overwritten it (spare capacity included) the same frame encodes as before
+	keep := append([]byte(nil), b...)
+	ev.Trash(b)
+	if again, err := p.Encode(a.frame()); err != nil || !bytes.Equal(again, keep) {
+		return fmt.Errorf("after the application overwrote the first tag body the same frame encodes to %x (err %v), before to %x", head(again), err, head(keep))
+	}
 	return nil
 }
 
@@ -144,6 +150,12 @@ func checkVideo(v VF) error {
 	b2, err := p.Encode(f)
 	if err != nil || !bytes.Equal(b, b2) {
 		return fmt.Errorf("re-encode of the decoded frame differs (err %v)", err)
+	}
+	keep := append([]byte(nil), b...)
+	ev.Trash(b)
+	ev.Trash(b2)
+	if again, err := p.Encode(fr); err != nil || !bytes.Equal(again, keep) {
+		return fmt.Errorf("after the application overwrote the earlier tag bodies the same frame encodes to %x (err %v), before to %x", head(again), err, head(keep))
 	}
 	return nil
 }
